@@ -416,7 +416,7 @@ var solexaPhredTable = func() [256]Qphred {
 	t := [256]Qphred{0: 255, 255: 0}
 	for q := range t[1:255] {
 		qs := q - 127
-		Q := Qphred(10*math.Log10(math.Pow(10, float64(qs)/10)) + 0.5)
+		Q := Qphred(10*math.Log10(math.Pow(10, float64(qs)/10)+1) + 0.5)
 		if Q > 254 {
 			Q = 254
 		}
@@ -454,8 +454,8 @@ func (qs Qsolexa) Encode(e Encoding) (q byte) {
 		}
 	case Solexa:
 		q = byte(qs)
-		if q <= 62 {
-			q += 64
+		if -64 <= qs && qs <= 62 {
+			q = byte(int(qs) + 64)
 		}
 	case None:
 		return ' '
